@@ -22,6 +22,133 @@ pub struct Case {
     pub mode: u8,
     /// layout tapes: each sentence is rendered once per tape (plus the minimal layout)
     pub layouts: Vec<Vec<u16>>,
+    /// family "a terminal that itself begins with layout characters" (`X: /\\s+x/` next to `Y: 'x'`
+    /// under a Layout rule): only the round trip is judged, see `check_leadws`
+    #[serde(default)]
+    pub leadws: Option<LeadWs>,
+}
+
+#[derive(Clone, Debug, Serialize, Deserialize)]
+pub struct LeadWs {
+    /// number of `Y` at the end of the second alternative (1..=3)
+    pub ny: u8,
+    pub nullable_a: bool,
+    pub inputs: Vec<Vec<u16>>,
+}
+
+fn leadws_grammar(lw: &LeadWs) -> String {
+    let ys = vec!["Y"; lw.ny.clamp(1, 3) as usize].join(" ");
+    let a = if lw.nullable_a { "A: Aa | EMPTY;" } else { "A: Aa;" };
+    format!("S: P A X | Q A {ys};\n{a}\nLayout: WS;\nterminals\nP: 'p';\nQ: 'q';\nAa: 'a';\nX: /\\s+x/;\nY: 'x';\nWS: /\\s+/;\n")
+}
+
+fn leadws_input(lw: &LeadWs, tape: &[u16]) -> String {
+    const SEPS: &[&str] = &[" ", "  ", "\n", "\t ", " \n ", ""];
+    let mut cur = Cursor::new(tape);
+    let ny = lw.ny.clamp(1, 3) as usize;
+    let mut words: Vec<&str> = match cur.pick(4) {
+        0 => vec!["p", "a", "x"],
+        1 => {
+            let mut w = vec!["q", "a"];
+            w.extend(std::iter::repeat("x").take(ny));
+            w
+        }
+        2 => {
+            let mut w = vec!["q", "a"];
+            w.extend(std::iter::repeat("x").take(ny - 1));
+            w
+        }
+        _ => (0..cur.pick(7)).map(|_| ["p", "q", "a", "x"][cur.pick(4)]).collect(),
+    };
+    if lw.nullable_a && cur.pick(3) == 0 && words.len() > 1 {
+        words.remove(1);
+    }
+    let mut s = String::new();
+    for (k, w) in words.iter().enumerate() {
+        if k > 0 || cur.pick(4) == 0 {
+            s.push_str(SEPS[cur.pick(SEPS.len())]);
+        }
+        s.push_str(w);
+    }
+    if cur.pick(3) == 0 {
+        s.push_str(SEPS[cur.pick(SEPS.len())]);
+    }
+    s
+}
+
+/// Round trip only: with a terminal that begins with layout characters the token sequence of an
+/// input depends on the parser state, so neither acceptance nor the attachment of a layout run to
+/// a particular leaf is judged here; every Ok(tree) must still reproduce the consumed input.
+fn check_leadws(lw: &LeadWs, st: &mut Stats) -> Outcome {
+    let text = leadws_grammar(lw);
+    let cfg = Cfg::lr();
+    let d = match compile_or_discard(&text, &cfg, st) {
+        Ok(d) => d,
+        Err(Some(_)) => {
+            st.discard("compiler-rejects-grammar");
+            return Outcome::Pass;
+        }
+        Err(None) => return Outcome::Pass,
+    };
+    if has_conflicts(&d) {
+        st.discard("conflicts");
+        return Outcome::Pass;
+    }
+    if install(&d, &cfg).is_err() {
+        return Outcome::Pass;
+    }
+    st.class("mode-leadws");
+    for tape in &lw.inputs {
+        let inp = leadws_input(lw, tape);
+        let inp = &inp;
+        st.sub();
+        dynp::reset_steps(LR_STEPS * 4);
+        let res = match guarded(|| dynp::lr_parse(inp, RunOpts::default())) {
+            Ok(r) => r,
+            Err(p) => return panic_outcome("parse|leadws", &p),
+        };
+        let tree = match res {
+            Ok(t) => t,
+            Err(_) => {
+                st.class("leadws-rejected");
+                continue;
+            }
+        };
+        let ctx = || format!("grammar:\n{text}\ninput: {inp:?}");
+        let mut leaves = vec![];
+        tree.leaves(&mut leaves);
+        let mut rebuilt = String::new();
+        let mut nonempty_layouts = 0;
+        for (k, l) in leaves.iter().enumerate() {
+            if let Node::Term { text: ttext, layout, .. } = l {
+                let lay = layout.as_ref().map(|x| x.1.as_str()).unwrap_or("");
+                if !is_ws(lay) && !lay.is_empty() {
+                    return Outcome::fail("layout-class|leadws".to_string(), format!("{}\nlayout before leaf {k} is {lay:?}", ctx()));
+                }
+                if !lay.is_empty() {
+                    nonempty_layouts += 1;
+                }
+                rebuilt.push_str(lay);
+                rebuilt.push_str(ttext);
+            }
+        }
+        let end = leaves.last().map(|l| l.span().end.pos).unwrap_or(0);
+        if inp.get(..end) != Some(rebuilt.as_str()) {
+            return Outcome::fail(
+                "roundtrip|leadws".to_string(),
+                format!("{}\nrebuilt {:?} vs consumed {:?}", ctx(), rebuilt, inp.get(..end)),
+            );
+        }
+        let rest = &inp[end..];
+        if !rest.is_empty() && !is_ws(rest) {
+            return Outcome::fail("trailing-not-layout|leadws".to_string(), format!("{}\nrest {rest:?}", ctx()));
+        }
+        if nonempty_layouts >= 1 && leaves.len() >= 3 {
+            st.nontrivial(&format!("{text}\n{inp}"), || json!({"grammar": text, "mode": "leadws", "input": inp, "tree": canon_real(&d, &tree, true)}));
+        }
+    }
+    dynp::uninstall();
+    Outcome::Pass
 }
 
 fn kind_of(mode: u8) -> Option<LayoutKind> {
@@ -74,7 +201,15 @@ impl Prop for C14 {
             prop_oneof![2 => Just(0u8), 1 => Just(1u8), 1 => Just(2u8), 2 => Just(3u8), 1 => Just(4u8)],
             proptest::collection::vec(proptest::collection::vec(any::<u16>(), 0..30), nlay),
         )
-            .prop_map(|(g, mode, layouts)| Case { g, mode, layouts })
+            .prop_map(|(g, mode, layouts)| Case { g, mode, layouts, leadws: None })
+            .prop_flat_map(|c| {
+                let plain = c.clone();
+                prop_oneof![
+                    15 => Just(plain),
+                    1 => (1u8..=3, any::<bool>(), proptest::collection::vec(proptest::collection::vec(any::<u16>(), 0..24), 8..16))
+                        .prop_map(move |(ny, nullable_a, inputs)| Case { leadws: Some(LeadWs { ny, nullable_a, inputs }), ..c.clone() }),
+                ]
+            })
             .boxed()
     }
     fn cases(&self, tier: Tier) -> u32 {
@@ -95,16 +230,25 @@ impl Prop for C14 {
          re-layouts of a sentence parse Ok to the same tree modulo positions; sentences must parse; \
          with partial_parse on every rendering gives the very same tree (layout never ends the parse early); \
          non-trivial = (grammar, mode, rendering) with >= 2 non-empty layouts and a tree with >= 2 \
-         interior nodes"
+         interior nodes. One case in 16 is of the family `S: P A X | Q A Y{1..3}; A: Aa [| EMPTY]; \
+         Layout: WS; X: /\\s+x/; Y: 'x'` (a terminal that itself begins with layout characters; 8..16 \
+         inputs over p q a x with generated whitespace runs): the token sequence is then state \
+         dependent, so only the round trip, the layout class and the trailing rest are judged for \
+         every Ok(tree) and rejections are counted, not judged; non-trivial there = Ok tree with >= 3 \
+         leaves and a non-empty layout"
             .into()
     }
     fn assumptions(&self) -> Vec<String> {
         vec![
             "LR only (the GLR parser attaches no layout: FIXME in the source, outside the property)".into(),
-            "prefix-free terminals none of which starts a comment".into(),
+            "prefix-free terminals none of which starts a comment (main family); the lead-ws family judges the round trip only".into(),
         ]
     }
     fn describe(&self, case: &Case) -> Value {
+        if let Some(lw) = &case.leadws {
+            let inputs: Vec<String> = lw.inputs.iter().map(|t| leadws_input(lw, t)).collect();
+            return json!({"grammar": leadws_grammar(lw), "mode": "leadws", "inputs": inputs});
+        }
         let spec = spec_of(case);
         let bnf = case.g.spec.bnf();
         let mut inputs = vec![];
@@ -119,6 +263,9 @@ impl Prop for C14 {
         json!({"grammar": spec.render(), "mode": case.mode, "inputs": inputs})
     }
     fn check(&self, case: &Case, st: &mut Stats) -> Outcome {
+        if let Some(lw) = &case.leadws {
+            return check_leadws(lw, st);
+        }
         let spec = spec_of(case);
         let bnf = case.g.spec.bnf();
         let text = spec.render();
